@@ -62,10 +62,11 @@ type Sim struct {
 	pending        []*TxSpec         // follow-up transactions of multi-step generator moves
 	lastSig        map[string][]byte // signature bytes of the last successful transaction per sender
 	script         func(s *Sim, h int64) []*TxSpec
-	contracts      [][]byte // deployed contract addresses (top-level deployments)
-	scriptEvidence [][]byte // evidence a script wants in the current block
-	ties           bool     // tie-prone flavour: stake amounts from a small set
-	scriptMiss     [][]byte // validators a script reports as not having signed the previous block
+	contracts      [][]byte          // deployed contract addresses (top-level deployments)
+	scriptEvidence [][]byte          // evidence a script wants in the current block
+	progOf         map[string]string // deployed contract address -> program name
+	ties           bool              // tie-prone flavour: stake amounts from a small set
+	scriptMiss     [][]byte          // validators a script reports as not having signed the previous block
 }
 
 var e18 = new(big.Int).Exp(big.NewInt(10), big.NewInt(18), nil)
@@ -104,6 +105,10 @@ func newSimWith(seed int64, scratch string, profile string, nvals, nusers int, t
 		nv, nu = nvals, nusers
 	}
 	g := Genesis{ChainID: fmt.Sprintf("verif-chain-%d", seed%7), Params: pickParams(rng)}
+	if seed%5 == 2 && nvals == 0 {
+		// flavour: a reward per power beyond 64 bits (the parameter is a 256-bit number; rewards are too)
+		g.Params.RewardPerPower = new(big.Int).Add(new(big.Int).Lsh(big.NewInt(1), uint(62+rng.Intn(5))), big.NewInt(int64(rng.Intn(1000)))).String()
+	}
 	if g.Params.MaxValidatorCnt < int64(nv) { // the genesis validators satisfy the validator limits
 		g.Params.MaxValidatorCnt = int64(nv)
 	}
@@ -950,8 +955,8 @@ func (s *Sim) genEvmTx(deploy bool) *TxSpec {
 	r := s.rng
 	from := s.pick(s.all)
 	if deploy {
-		progs := [][]byte{progStore(r), progForward(), progReverter(), progBalanceReader(), progSuicide(), progForwardAll()}
-		names := []string{"store", "forward", "reverter", "balance-reader", "suicide", "forward-all"}
+		progs := [][]byte{progStore(r), progForward(), progReverter(), progBalanceReader(), progSuicide(), progForwardAll(), progProbeRevert(), progCallIgnoring()}
+		names := []string{"store", "forward", "reverter", "balance-reader", "suicide", "forward-all", "probe-revert", "call-ignoring"}
 		i := r.Intn(len(progs))
 		t := s.baseTx(6, from, make([]byte, 20))
 		t.Data = deployer(progs[i])
@@ -962,6 +967,14 @@ func (s *Sim) genEvmTx(deploy bool) *TxSpec {
 	}
 	c := s.contracts[r.Intn(len(s.contracts))]
 	s.watchAddr(make([]byte, 20)) // calls without data make the programs use address 0
+	if probe, outer := s.contractOf("probe-revert"), s.contractOf("call-ignoring"); probe != nil && outer != nil && r.Intn(5) == 0 {
+		// a successful call whose inner frame is the first to look at account X and then reverts
+		x := s.pick(s.all)
+		t := s.baseTx(6, from, outer)
+		t.Data = append(word(probe), word(x.Addr)...)
+		t.Gas, t.Note = uint64(200000+r.Intn(200000)), "evm-inner-frame-reverts-after-first-touch"
+		return t
+	}
 	if r.Intn(6) == 0 {
 		// both execution paths for one account inside one block: a contract call by Y, a native
 		// transaction by Y, then another contract call (by Y or by somebody else)
@@ -1072,6 +1085,12 @@ func (s *Sim) observeEvm(bt *Built, d DeliverObs, before map[string]AcctObs) {
 		created := ethcrypto.CreateAddress(common.BytesToAddress(t.From), t.Nonce)
 		e.Created = created[:]
 		s.contracts = append(s.contracts, created[:])
+		if s.progOf == nil {
+			s.progOf = map[string]string{}
+		}
+		if len(t.Note) > len("evm-deploy:") && t.Note[:len("evm-deploy:")] == "evm-deploy:" {
+			s.progOf[string(created[:])] = t.Note[len("evm-deploy:"):]
+		}
 		s.watchAddr(created[:])
 	}
 	if d.Code == 0 {
@@ -1116,4 +1135,14 @@ func pureJudgement(before map[string]AcctObs, e *EvmEffect, t *TxSpec, gasUsed i
 		out += fmt.Sprintf("touched accounts changed by %s beyond -gasUsed*price; ", sum.String())
 	}
 	return out
+}
+
+// contractOf: a deployed contract running the named program (nil: none yet)
+func (s *Sim) contractOf(prog string) []byte {
+	for _, c := range s.contracts {
+		if s.progOf[string(c)] == prog {
+			return c
+		}
+	}
+	return nil
 }
